@@ -59,9 +59,25 @@ def coq_files():
     return [os.path.relpath(f, COQ) for f in fs]
 
 
+def go_module_dir():
+    """the harness module; for VERIF_REPO != /repo (seeded-mutation runs on a scratch worktree) a copy
+    whose replace directive points at that tree"""
+    global GO
+    if os.path.realpath(REPO) == "/repo":
+        return GO
+    alt = os.path.join(BUILD, "go-alt")
+    shutil.rmtree(alt, ignore_errors=True)
+    shutil.copytree(GO, alt, ignore=shutil.ignore_patterns("go.sum"))
+    gm = open(os.path.join(alt, "go.mod")).read().replace("=> /repo", "=> " + os.path.realpath(REPO))
+    open(os.path.join(alt, "go.mod"), "w").write(gm)
+    GO = alt
+    return alt
+
+
 def build_go():
     """(re)build srcfacts and qv against the current /repo tree"""
     os.makedirs(os.path.join(BUILD, "bin"), exist_ok=True)
+    go_module_dir()
     src_sum = os.path.join(REPO, "go.sum")
     dst_sum = os.path.join(GO, "go.sum")
     if os.path.exists(src_sum):
@@ -181,8 +197,9 @@ def term_indices(term):
 
 def load_known():
     listed, fixed = {}, []
-    p = os.path.join(ROOT, "KNOWN_FINDINGS.txt")
-    if os.path.exists(p):
+    for p in [os.path.join(ROOT, "KNOWN_FINDINGS.txt")]:
+        if not os.path.exists(p):
+            continue
         for line in open(p):
             line = line.strip()
             if not line or line.startswith("#"):
@@ -440,7 +457,8 @@ def run_check(pid, tier, seed):
 
 
 PROP_ASSUMPTIONS = {}
-try:
-    PROP_ASSUMPTIONS = json.load(open(os.path.join(ROOT, "lib", "assumptions.json")))
-except Exception:
-    pass
+for _f in glob.glob(os.path.join(ROOT, "lib", "claims", "*.json")):
+    try:
+        PROP_ASSUMPTIONS[os.path.basename(_f)[:-5]] = json.load(open(_f)).get("assumptions", [])
+    except Exception:
+        pass
